@@ -1,0 +1,56 @@
+//go:build verif
+
+package commitlog
+
+// Crash hooks for the verification harness (build tag `verif` only).
+//
+// crashPoint(name) marks a point between two file-system effects of the commit
+// log. With the tag, VERIF_CRASH=<name>:<N> makes the N-th hit of that name kill
+// the process with SIGKILL (a process crash: what was written stays), and
+// VERIF_CRASH_LOG=<file> appends "name\n" to the file at every hit so that the
+// points of a workload can be enumerated. Without the tag crashPoint is an empty
+// function (verif_crash_off.go).
+
+import (
+	"os"
+	"strconv"
+	"strings"
+	"sync"
+	"syscall"
+)
+
+var verifCrash struct {
+	mu     sync.Mutex
+	loaded bool
+	name   string
+	n      int
+	log    *os.File
+	hits   map[string]int
+}
+
+func crashPoint(name string) {
+	c := &verifCrash
+	c.mu.Lock()
+	defer c.mu.Unlock()
+	if !c.loaded {
+		c.loaded = true
+		c.hits = make(map[string]int)
+		if spec := os.Getenv("VERIF_CRASH"); spec != "" {
+			if i := strings.LastIndex(spec, ":"); i > 0 {
+				c.name = spec[:i]
+				c.n, _ = strconv.Atoi(spec[i+1:])
+			}
+		}
+		if p := os.Getenv("VERIF_CRASH_LOG"); p != "" {
+			c.log, _ = os.OpenFile(p, os.O_WRONLY|os.O_CREATE|os.O_APPEND, 0644)
+		}
+	}
+	c.hits[name]++
+	if c.log != nil {
+		c.log.WriteString(name + "\n") // nolint: errcheck
+	}
+	if c.name != "" && name == c.name && c.hits[name] == c.n {
+		syscall.Kill(os.Getpid(), syscall.SIGKILL) // nolint: errcheck
+		select {}                                  // never continue past the crash point
+	}
+}
